@@ -91,6 +91,18 @@ def evaluate(case):
         Gon = w_on if out == "G" else getattr(cv, f"{out}_to_G")(r, w_on, **kw)[0]
         Goff = w_off if out == "G" else getattr(cv, f"{out}_to_G")(r, w_off, **kw)[0]
     added = np.asarray(Gon, dtype=float) - np.asarray(Goff, dtype=float)
+    # the term is built from S(Qmin), not from its error bar: supplying uncertainties with the data (first bin included) changes no value
+    if len(q) >= 2:
+        dq_ = 0.02 + 0.03 * np.abs(np.sin(np.arange(len(q)) + 1.0))
+        try:
+            with np.errstate(all="ignore"):
+                w_unc = fn(q, y, r, dq_, OmittedXrangeCorrection=True, **kw)[1]
+            if not np.array_equal(np.asarray(w_unc, dtype=float), np.asarray(w_on, dtype=float), equal_nan=True):
+                fails.append(f"{inp}_to_{out} with OmittedXrangeCorrection: the values change by {np.abs(np.asarray(w_unc, dtype=float) - np.asarray(w_on, dtype=float)).max():.3g} "
+                             "when uncertainties are supplied with the data (the low-Q term was built from S(Qmin) shifted by its error bar)")
+                return fails
+        except TypeError:
+            pass
     pos = r > 0
     qmin, qmax, smin = float(q_eff[0]), float(q_eff[-1]), float(s_eff[0])
     if qmin == 0.0:
